@@ -545,19 +545,30 @@ func c10(c *core.Ctx, r *core.Report) {
 			}
 		}
 		r.Check(okAcc, "MaxDuration#sum", c.Pos(md.Pos()), "Σ stages[i].Duration, unconditionally", "MaxDuration is not the sum of all stage durations (e.g. `=` instead of `+=`, or a filtered sum)")
-		csr := c.MustFn(spkg, "CalculateStagedRate")
-		for _, ret := range an.Returns(csr) {
-			lit := an.StructLiteralOf(ret.Results[0])
-			if lit == nil {
+		// the functions of the package that build the rates (by role: they return an api.Rates literal; variants that
+		// delegate to another one are judged there)
+		ratesFns := map[string]bool{}
+		nRates := 0
+		for _, csr := range c.AllFuncs {
+			if core.RelPkg(csr) != spkg || !returnsRates(csr) {
 				continue
 			}
-			v := an.LiteralFields(lit)["Duration"]
-			d := "<unset>"
-			if v != nil {
-				d = an.D().Of(v)
+			ratesFns[csr.Name()] = true
+			for _, ret := range an.Returns(csr) {
+				lit := an.StructLiteralOf(ret.Results[0])
+				if lit == nil || !an.IsNamed(lit.Type(), apiPkg, "Rates") {
+					continue
+				}
+				nRates++
+				v := an.LiteralFields(lit)["Duration"]
+				d := "<unset>"
+				if v != nil {
+					d = an.D().Of(v)
+				}
+				r.Check(strings.Contains(d, "MaxDuration("), csr.Name()+"#Duration", an.Pos(c, ret), "Rates.Duration ← "+d, "Rates.Duration is "+d+", not the calculator's MaxDuration()")
 			}
-			r.Check(strings.Contains(d, "MaxDuration("), "CalculateStagedRate#Duration", an.Pos(c, ret), "Rates.Duration ← "+d, "Rates.Duration is "+d+", not the calculator's MaxDuration()")
 		}
+		r.Floor("staged rates literals", nRates, 1)
 		// the staged trigger literal
 		found := false
 		for _, fn := range c.AllFuncs {
@@ -601,7 +612,13 @@ func c10(c *core.Ctx, r *core.Report) {
 				if v != nil {
 					d = an.D().Of(v)
 				}
-				r.Check(strings.HasSuffix(d, ".Duration") && strings.Contains(d, "CalculateStagedRate("), core.FuncName(fn)+"#Trigger.Duration", an.Pos(c, ret), "Trigger.Duration ← "+d, "the staged trigger reports total duration "+d+" instead of the sum of the stage durations")
+				fromRates := false
+				for nm := range ratesFns {
+					if strings.Contains(d, "."+nm+"(") {
+						fromRates = true
+					}
+				}
+				r.Check(strings.HasSuffix(d, ".Duration") && fromRates, core.FuncName(fn)+"#Trigger.Duration", an.Pos(c, ret), "Trigger.Duration ← "+d, "the staged trigger reports total duration "+d+" instead of the sum of the stage durations")
 			}
 		}
 		if !found {
